@@ -32,7 +32,7 @@ ASSUMPTIONS = [
 FLOORS = {
     'quick': {'keyword_rejections': 2000, 'alternative_after_rejection': 700, 'nonkeyword_same_as_undecorated': 4000,
               'ignorecase_directive': 1500, 'ignorecase_setting': 1500, 'gen_compared': 6000, 'name_events': 9000,
-              'case_variant_rejected': 800, 'in_lookahead': 250, 'in_closure': 1000},
+              'case_variant_rejected': 800, 'in_lookahead': 250, 'in_closure': 1000, 'uppercase_name_rule': 1500, 'reused_after_flip': 6000},
     'thorough': {'keyword_rejections': 80000, 'nonkeyword_same_as_undecorated': 150000, 'gen_compared': 150000},
 }
 N = {'quick': 1600, 'thorough': 40000}
@@ -51,7 +51,15 @@ def plan(tier, seed):
 def gen_case(rng):
     kws = tuple(rng.sample(KEYWORD_POOL, rng.choice([1, 2, 3])))
     idpat = rng.choice(IDENT_PATS)
-    C, T = L.Call, L.Tok
+    T = L.Tok
+    # a token-style (upper-case) @name rule does not skip whitespace at its entry: put a void before each reference
+    upper = rng.random() < 0.35
+    names = {'ident': 'IDENT', 'other': 'Other'} if upper else {'ident': 'ident', 'other': 'other'}
+
+    def C(name):
+        if upper:
+            return L.Group(L.Seq((L.Void(), L.Call(names[name]))))
+        return L.Call(names[name])
     kwtok = [T(k) for k in kws]
     shape = rng.choice(['stmt', 'closure', 'lookahead', 'choice_after', 'named', 'gather', 'two_names'])
     rules = []
@@ -68,15 +76,20 @@ def gen_case(rng):
         body = L.Seq((L.Clo(L.Group(L.Choice((C('ident'), *kwtok)))), L.EOF()))
         feats.add('in_closure')
     elif shape == 'named':
-        body = L.Seq((L.Named('n', C('ident')), L.Named('rest', L.Clo(L.Group(L.Choice((C('ident'), *kwtok))))), L.EOF()))
+        first = L.Named('n', L.Call(names['ident']))
+        if upper:
+            first = L.Group(L.Seq((L.Void(), first)))   # the void stays outside the name (naming a group is C02's business)
+        body = L.Seq((first, L.Named('rest', L.Clo(L.Group(L.Choice((C('ident'), *kwtok))))), L.EOF()))
     elif shape == 'gather':
         body = L.Seq((L.Join(T(','), L.Group(L.Choice((C('ident'), rng.choice(kwtok)))), False, True), L.EOF()))
         feats.add('in_closure')
     else:
-        rules.append(L.Rule('other', L.Pat(r'\d+|' + idpat), decorators=('name',)))
+        rules.append(L.Rule(names['other'], L.Pat(r'\d+|' + idpat), decorators=('name',)))
         body = L.Seq((L.Clo(L.Group(L.Choice((C('ident'), C('other'), *kwtok)))), L.EOF()))
         feats.add('in_closure')
-    rules = [L.Rule('start', body), L.Rule('ident', L.Pat(idpat), decorators=('name',))] + rules
+    rules = [L.Rule('start', body), L.Rule(names['ident'], L.Pat(idpat), decorators=('name',))] + rules
+    if upper:
+        feats.add('uppercase_name_rule')
     directives = {}
     mode = rng.choice(['off', 'off', 'directive', 'setting'])
     settings = {}
@@ -145,6 +158,9 @@ def check(acc, g, settings, mode, feats, texts, origin):
                       {'grammar': L.to_json(g), 'grammar_text': L.grammar_text(g), 'text': '', 'settings': settings})
         gen = None
     name_rules = {r.name for r in g.rules if 'name' in r.decorators}
+    reused = [None]
+    if 'uppercase_name_rule' in feats:
+        acc.count('uppercase_name_rule', len(texts))
     if mode == 'directive':
         acc.count('ignorecase_directive', len(texts))
     elif mode == 'setting':
@@ -190,6 +206,17 @@ def check(acc, g, settings, mode, feats, texts, origin):
         if gen is not None:
             gout = plain(lambda t, **kw: gen().parse(t, **kw), g, text, settings)
             acc.count('gen_compared')
+            # ... and one long-lived parser object: a parse under the opposite ignorecase setting in between must not matter
+            if reused[0] is None:
+                reused[0] = gen()
+            flip = dict(settings, ignorecase=not ignorecase)
+            plain(lambda t, **kw: reused[0].parse(t, **kw), g, text, flip)
+            rout = plain(lambda t, **kw: reused[0].parse(t, **kw), g, text, settings)
+            acc.count('reused_after_flip')
+            if rout != gout:
+                acc.violation(f'gen-reused-object/{mode}',
+                              f'a generated parser object gives another result after a parse with ignorecase={not ignorecase} on the same object: '
+                              f'{L.grammar_text(g)!r} {text!r} {settings} FRESH={gout} REUSED={rout}', w)
             if gout[0] != out[0] or (gout[0] == 'ok' and gout != out):
                 acc.violation(f'gen/{mode}', f'generated parser != model with keywords: {L.grammar_text(g)!r} {text!r} {settings} MODEL={out} GEN={gout}', w)
 
